@@ -235,7 +235,7 @@ func nthString(alpha []string, length, i int) string {
 }
 
 func runC06(r *core.Run) {
-	r.Rule("(a) exhaustive: every string '/'+s with |s|<=L-1 over the 13-symbol character alphabet {/ ? { } : , blank a * [ tab ^ $} and every string not starting with '/' up to length 4; every '/'+t over a 14-token alphabet (/ ? { } : , blank a ** capture /[0-9]+/ 'x: ' {x} b.c) up to K tokens; (b) random derivations of the grammar rendered with random blanks, then 0-2 byte edits; (c) arbitrary byte strings incl. NUL/non-UTF-8 and very long inputs; (d) every BMP code point inserted at six grammar positions. Oracle: independent recursive-descent recogniser/parser of the documented token-level EBNF with pinned terminal classes; fixpoint of the canonical rendering. non-trivial = distinct accepted strings plus distinct rejected strings one edit away from an accepted one")
+	r.Rule("(a) exhaustive: every string '/'+s with |s|<=L-1 over the 13-symbol character alphabet {/ ? { } : , blank a * [ tab ^ $} and every string not starting with '/' up to length 4; every '/'+t over a 14-token alphabet (/ ? { } : , blank a ** capture /[0-9]+/ 'x: ' {x} b.c) up to K tokens; (b) random derivations of the grammar rendered with random blanks, then 0-2 byte edits; families of routes sharing a prefix parsed one after the other on one parser, every result re-inspected after the last parse; (c) arbitrary byte strings incl. NUL/non-UTF-8 and very long inputs; (d) every BMP code point inserted at six grammar positions. Oracle: independent recursive-descent recogniser/parser of the documented token-level EBNF with pinned terminal classes; fixpoint of the canonical rendering. non-trivial = distinct accepted strings plus distinct rejected strings one edit away from an accepted one")
 	r.Assume("terminal classes ident/regex are pinned to the lexer's classes at design time (README's first BNF drifted, see DESIGN §6)")
 	c06Canaries(r)
 
@@ -353,6 +353,61 @@ func runC06(r *core.Run) {
 			}
 		}
 	})
+	// (b1) what a parse returned stays what it was: families of routes that share a prefix (a base of 1-8 segments and
+	// 2-4 extensions of it, as an application declares them) are parsed one after the other on one parser; after
+	// the last parse every earlier result must still render and read as it did when it was returned
+	r.Parallel("retained", r.N(20000, 1000000), func(w *core.W, rng *rand.Rand, i int) {
+		p := parserOf(w)
+		cfg := gen.Cfg{AllowRoot: false, MaxSegs: 8}
+		pool := gen.GenPool(rng, cfg)
+		base := gen.GenRoute(rng, pool, cfg)
+		for len(base.Segs) < 1+rng.Intn(8) {
+			base.Segs = append(base.Segs, pool[rng.Intn(len(pool))])
+		}
+		for si := range base.Segs {
+			base.Segs[si].Optional = false
+		}
+		texts := []string{base.Render()}
+		for k := 2 + rng.Intn(3); k > 0; k-- {
+			ext := &rmodel.Route{Segs: append(append([]rmodel.Segment{}, base.Segs...), pool[rng.Intn(len(pool))])}
+			if rng.Intn(3) == 0 {
+				ext.Segs = append(ext.Segs, pool[rng.Intn(len(pool))])
+			}
+			texts = append(texts, ext.Render())
+		}
+		if rng.Intn(4) == 0 {
+			texts[0], texts[len(texts)-1] = texts[len(texts)-1], texts[0] // the base comes last
+		}
+		c := &parseCase{S: core.B(strings.Join(texts, "\n"))}
+		w.Begin("parse-family", c)
+		w.Eval()
+		type kept struct {
+			rt  *route.Route
+			str string
+			ast *rmodel.Route
+		}
+		var keep []kept
+		for _, t := range texts {
+			rt, err, pan := safeParse(p, t)
+			if pan != nil || err != nil || rt == nil {
+				if _, merr := rmodel.Parse(t); merr == nil {
+					w.Violate("parser", c, fmt.Sprintf("[retained] %q is in the grammar and was not accepted: %v %v", t, err, pan))
+				}
+				return
+			}
+			ast, _ := fromImpl(rt)
+			keep = append(keep, kept{rt, rt.String(), ast})
+		}
+		for j, k := range keep {
+			ast, _ := fromImpl(k.rt)
+			if now := k.rt.String(); now != k.str || ast == nil || k.ast == nil || !ast.Equal(k.ast) {
+				w.Violate("parser", c, fmt.Sprintf("[retained] the route returned for %q rendered as %q when it was returned and renders as %q after %d more routes were parsed on the same parser", texts[j], k.str, k.rt.String(), len(keep)-1-j))
+				return
+			}
+		}
+		w.Count("families-reinspected-after-later-parses")
+		w.NonTrivial(core.Hash64("fam", string(c.S)), func() interface{} { return map[string]interface{}{"family": texts} })
+	})
 	// (b2) whole valid routes inside a wrapper, and multi-character idioms (common regular-expression and quoting
 	// habits) dropped into valid routes - inside expressions, literals and between tokens. A tolerant lexer rule
 	// or pre-processing step shows only for such coordinated sequences, never for a single edited byte. The
@@ -383,6 +438,7 @@ func runC06(r *core.Run) {
 	})
 	r.GateCounter("wrapped-valid-routes", 1000)
 	r.GateCounter("idiom-inside-expression", 1000)
+	r.GateCounter("families-reinspected-after-later-parses", 5000)
 	// (c) arbitrary bytes
 	r.Parallel("bytes", r.N(50000, 4000000), func(w *core.W, rng *rand.Rand, i int) {
 		p := parserOf(w)
